@@ -282,8 +282,97 @@ def quiet():
     warnings.simplefilter("ignore")
 
 
+# ---- import-time state of the Pyro5 modules and classes: restored before every run, so that whatever a (changed) tree keeps in
+# module globals, class attributes, registries or caches cannot travel from one run to the next within a worker process - a run
+# must be a pure function of its plan, also in a fresh interpreter
+_IMPORT_STATE = None
+_CONTAINERS = (dict, list, set, bytearray)
+
+
+def _is_pyro_class(v):
+    return isinstance(v, type) and getattr(v, "__module__", "").startswith("Pyro5")
+
+
+def _snapshot_import_state():
+    global _IMPORT_STATE
+    st = {"containers": [], "attrs": [], "class_keys": []}
+    seen = set()
+
+    def container(c):
+        if id(c) in seen:
+            return
+        seen.add(id(c))
+        st["containers"].append((c, type(c)(c)))
+
+    for m in _pyro_modules():
+        for name, v in list(vars(m).items()):
+            if name.startswith("__"):
+                continue
+            st["attrs"].append((m, name, v))
+            if isinstance(v, _CONTAINERS):
+                container(v)
+            elif _is_pyro_class(v) and v.__module__ == m.__name__:
+                st["class_keys"].append((v, frozenset(vars(v))))
+                for an, av in list(vars(v).items()):
+                    if an.startswith("__") and an.endswith("__"):
+                        continue
+                    if isinstance(av, _CONTAINERS):
+                        container(av)
+                        st["attrs"].append((v, an, av))
+                    elif av is None or isinstance(av, (bool, int, float, str, bytes, tuple, frozenset)):
+                        st["attrs"].append((v, an, av))
+    _IMPORT_STATE = st
+
+
+def _restore_import_state():
+    st = _IMPORT_STATE
+    if st is None:
+        return
+    for c, copy in st["containers"]:
+        if c != copy:
+            if isinstance(c, dict):
+                c.clear()
+                c.update(copy)
+            elif isinstance(c, set):
+                c.clear()
+                c.update(copy)
+            else:
+                c[:] = copy
+    for owner, name, v in st["attrs"]:
+        try:
+            if vars(owner).get(name, _MISSING) is not v:
+                setattr(owner, name, v)
+        except (AttributeError, TypeError):
+            pass
+    for cls, keys in st["class_keys"]:
+        for extra in [k for k in vars(cls) if k not in keys]:
+            try:
+                delattr(cls, extra)
+            except (AttributeError, TypeError):
+                pass
+    for m in _pyro_modules():
+        for v in list(vars(m).values()):
+            cc = getattr(v, "cache_clear", None)
+            if callable(cc):
+                cc()
+            elif _is_pyro_class(v):
+                for av in list(vars(v).values()):
+                    f = getattr(av, "__func__", av)
+                    cc = getattr(f, "cache_clear", None)
+                    if callable(cc):
+                        cc()
+
+
+_MISSING = object()
+
+
 def reset_between_runs():
     """restore the process-global state Pyro5 keeps"""
+    if _IMPORT_STATE is None:
+        # taken before the first run of this process (inherited by forked workers): by then the world's own modules have been
+        # imported too, with whatever they register for good at import time (class <-> dict converters, exposed classes)
+        _snapshot_import_state()
+    _restore_import_state()
     config.reset(False)
     cache = getattr(SV, "_Daemon__exposed_member_cache", None)
     for name, val in vars(SV).items():
